@@ -477,3 +477,228 @@ def rule_resub(c: Ctx) -> RuleResult:
                 r.add(key, c.where(f, call), f.short, U(call)[:90], "discharged", "trivial: no flag constant in the count slot")
     r.floor = 5
     return r
+
+
+# ------------------------------------------------------------------------------------------------ NLCOUNT
+def rule_nlcount(c: Ctx) -> RuleResult:
+    """The number of lines a reference definition claims is a count of the line feeds of the *source* text it scanned.
+
+    `reference` sets the block cursor to `startLine + lines + 1`; `lines` is fed by counters in the rule itself and by the
+    `lines` field of the link-destination / link-title scanners.  Every value that flows into that sum must be a line-feed
+    count of raw source text: the constant 0; a counter that is only ever incremented by one under a test that the scanned
+    character of a string *parameter* is LF; another such count added to it; the component of a helper's result that is such
+    a count; or `<raw slice of a string parameter>.count("\\n")`.  A count taken from decoded text (after unescapeAll: an
+    entity `&#10;` becomes a line feed there) makes the definition claim lines it does not occupy."""
+    from ..interproc import reaching, actuals
+    r = RuleResult("NLCOUNT", "the line count that moves the block cursor past a reference definition counts line feeds of the raw source "
+                              "only (counters stepped under an LF test of the scanned character, or raw-slice.count('\\n'))")
+    memo: dict[tuple, str] = {}
+
+    def str_params(f: Func) -> set[str]:
+        sc = c.tf.scope(f)
+        return {a.arg for a in f.node.args.posonlyargs + f.node.args.args + f.node.args.kwonlyargs if sc.type(ast.Name(id=a.arg, ctx=ast.Load())) == "str"
+                or (a.annotation is not None and U(a.annotation) == "str")}
+
+    def raw_text(f: Func, e: ast.AST, at: ast.AST, depth: int = 0) -> bool:
+        """e is the source string itself or a slice of it (a str parameter, state.src, or a single-definition local of those)"""
+        if depth > 3:
+            return False
+        if isinstance(e, ast.Subscript) and isinstance(e.slice, ast.Slice):
+            return raw_text(f, e.value, at, depth)
+        if isinstance(e, ast.Attribute) and e.attr == "src":
+            return True
+        if isinstance(e, ast.Call) and isinstance(e.func, ast.Attribute) and e.func.attr in ("strip", "lstrip", "rstrip"):
+            return raw_text(f, e.func.value, at, depth)
+        if isinstance(e, ast.Call) and isinstance(e.func, ast.Attribute) and e.func.attr in ("getLines", "getLine"):
+            return True          # lines cut out of the source (prefixes of enclosing containers removed; line feeds kept)
+        if isinstance(e, ast.Name):
+            if e.id in str_params(f):
+                return all(d.kind == "param" for d in reaching(c, f).at_ast(at, e.id)) or True
+            ds = list(reaching(c, f).at_ast(at, e.id))
+            return bool(ds) and all(d.kind == "assign" and d.value is not None and raw_text(f, d.value, d.stmt, depth + 1) for d in ds)
+        return False
+
+    def char_of_source(f: Func, e: ast.AST, at: ast.AST, depth: int = 0) -> bool:
+        if depth > 3:
+            return False
+        if isinstance(e, ast.Call) and isinstance(e.func, ast.Name) and e.func.id in ("charCodeAt", "charStrAt") and len(e.args) == 2:
+            return raw_text(f, e.args[0], at)
+        if isinstance(e, ast.Call) and isinstance(e.func, ast.Name) and e.func.id == "ord" and len(e.args) == 1:
+            return char_of_source(f, e.args[0], at, depth + 1)
+        if isinstance(e, ast.Subscript) and not isinstance(e.slice, ast.Slice):
+            return raw_text(f, e.value, at)
+        if isinstance(e, ast.Name):
+            ds = list(reaching(c, f).at_ast(at, e.id))
+            return bool(ds) and all(d.kind in ("assign", "walrus") and d.value is not None and char_of_source(f, d.value, d.stmt, depth + 1) for d in ds)
+        return False
+
+    def lf_guarded(f: Func, stmt: ast.AST) -> bool:
+        cfg, res = c.facts(f)
+        owners = cfg.owner(stmt)
+        if not owners:
+            return False
+        for nd in owners:
+            z = res.get(nd.id)
+            if z is None:
+                continue
+            ok = False
+            for (t, pol) in z.preds:
+                if not pol:
+                    continue
+                try:
+                    pe_ = ast.parse(t, mode="eval").body
+                except SyntaxError:
+                    continue
+                if isinstance(pe_, ast.Compare) and len(pe_.ops) == 1 and isinstance(pe_.ops[0], ast.Eq):
+                    for a_, b_ in ((pe_.left, pe_.comparators[0]), (pe_.comparators[0], pe_.left)):
+                        if isinstance(b_, ast.Constant) and b_.value in (10, "\n") and char_of_source(f, a_, stmt):
+                            ok = True
+            if not ok:
+                return False
+        return True
+
+    def count(f: Func, e: ast.AST, at: ast.AST, depth: int = 0) -> str:
+        """'' if e is a raw line-feed count, else the reason why not"""
+        if depth > 8:
+            return "the derivation is too deep to follow"
+        if isinstance(e, ast.Constant) and e.value == 0 and not isinstance(e.value, bool):
+            return ""
+        if isinstance(e, ast.BinOp) and isinstance(e.op, ast.Add):
+            return count(f, e.left, at, depth) or count(f, e.right, at, depth)
+        if isinstance(e, ast.IfExp):
+            return count(f, e.body, at, depth) or count(f, e.orelse, at, depth)
+        if isinstance(e, ast.Call) and isinstance(e.func, ast.Attribute) and e.func.attr == "count" and len(e.args) == 1 \
+                and isinstance(e.args[0], ast.Constant) and e.args[0].value == "\n":
+            return "" if raw_text(f, e.func.value, at) else (f"`{U(e)[:50]}` in {f.short} counts the line feeds of `{U(e.func.value)[:30]}`, which is not a raw "
+                                                           f"slice of the source (decoding can create line feeds: `&#10;`)")
+        if isinstance(e, ast.Attribute) and isinstance(e.value, ast.Name):
+            key = ("attr", e.attr)
+            if key in memo:
+                return memo[key]
+            memo[key] = ""
+            why = ""
+            nst = 0
+            for g in c.p.all_funcs():
+                if g.module.rel.startswith(("cli/", "tree.py", "token.py")):
+                    continue
+                for n in own_nodes(g.node):
+                    if isinstance(n, ast.Assign) and any(isinstance(t, ast.Attribute) and t.attr == e.attr for t in n.targets):
+                        nst += 1
+                        why = why or count(g, n.value, n, depth + 1)
+                    elif isinstance(n, ast.AugAssign) and isinstance(n.target, ast.Attribute) and n.target.attr == e.attr:
+                        nst += 1
+                        why = why or incr(g, n, n.value, depth + 1)
+            if not nst:
+                why = f"no store to a field `{e.attr}` found"
+            memo[key] = why
+            return why
+        if isinstance(e, ast.Name):
+            key = (f, e.id, id(at))
+            if key in memo:
+                return memo[key]
+            memo[key] = ""
+            ds = list(reaching(c, f).at_ast(at, e.id))
+            why = "" if ds else f"`{e.id}` has no definition reaching this point"
+            for d in ds:
+                if why:
+                    break
+                if d.kind == "assign" and d.value is not None:
+                    v = d.value
+                    if isinstance(v, ast.BinOp) and isinstance(v.op, ast.Add) and isinstance(v.left, ast.Name) and v.left.id == e.id:
+                        why = count(f, v.left, d.stmt, depth) or incr(f, d.stmt, v.right, depth)
+                    else:
+                        why = count(f, v, d.stmt, depth)
+                elif d.kind == "aug" and isinstance(d.stmt, ast.AugAssign) and isinstance(d.stmt.op, ast.Add):
+                    why = count(f, e, d.stmt, depth) or incr(f, d.stmt, d.stmt.value, depth)
+                elif d.kind == "unpack" and isinstance(d.stmt, ast.Assign) and len(d.stmt.targets) == 1 \
+                        and isinstance(d.stmt.targets[0], (ast.Tuple, ast.List)):
+                    from ..interproc import unpack_sources
+                    srcs = unpack_sources(c, f, e.id, d.stmt)
+                    if srcs is None:
+                        why = f"`{e.id}` is unpacked from `{U(d.stmt.value)[:40]}` in {f.short}: its component cannot be followed"
+                    else:
+                        for (g_, x_, at_) in srcs:
+                            why = why or count(g_, x_, at_, depth + (g_ is not f))
+                elif d.kind == "param":
+                    acts = actuals(c, f, e.id)
+                    if not acts:
+                        why = f"parameter `{e.id}` of {f.short} has no resolvable call site"
+                    for (caller, a_, cs_) in acts:
+                        why = why or count(caller, a_, cs_.node, depth + 1)
+                else:
+                    why = f"`{e.id}` is defined by a {d.kind} in {f.short}: not a line-feed count of the source"
+            memo[key] = why
+            return why
+        if isinstance(e, ast.Call):
+            return ret_count(f, e, None, depth + 1)
+        return f"`{U(e)[:50]}` in {f.short} is not a line-feed count of the raw source"
+
+    def ret_count(f: Func, call: ast.Call, idx: int | None, depth: int) -> str:
+        cs = c.cg.site_of.get(call)
+        if cs is None or len(cs.callees) != 1 or cs.kind not in ("direct", "method"):
+            return f"`{U(call)[:50]}` in {f.short}: callee not resolved"
+        g = cs.callees[0]
+        rets = [x for x in own_nodes(g.node) if isinstance(x, ast.Return) and x.value is not None]
+        if not rets:
+            return f"{g.short} returns nothing"
+        for rt in rets:
+            v = rt.value
+            if idx is not None:
+                if not (isinstance(v, (ast.Tuple, ast.List)) and idx < len(v.elts)):
+                    return f"{g.short} does not return a tuple with component {idx}"
+                v = v.elts[idx]
+            why = count(g, v, rt, depth + 1)
+            if why:
+                return why
+        return ""
+
+    def incr(f: Func, stmt: ast.AST, amount: ast.AST, depth: int) -> str:
+        if isinstance(amount, ast.Constant) and amount.value == 1:
+            return "" if lf_guarded(f, stmt) else (f"`{U(stmt)}` in {f.short} is not dominated by a test that the scanned source character is a line feed")
+        if isinstance(amount, ast.Constant):
+            return f"`{U(stmt)}` in {f.short} steps the line count by {amount.value!r}"
+        return count(f, amount, stmt, depth)
+
+    nsinks = 0
+    for reg in c.reg.rules["block"]:
+        f = reg.func
+        params = [a.arg for a in f.node.args.args]
+        if len(params) < 2:
+            continue
+        st, start = params[0], params[1]
+        for n in own_nodes(f.node):
+            if not (isinstance(n, ast.Assign) and any(U(t) == f"{st}.line" for t in n.targets)):
+                continue
+            # start + X (+ const) with X a name that is neither a parameter nor derived from a line cursor
+            terms: list[ast.AST] = []
+
+            def flat(e: ast.AST) -> None:
+                if isinstance(e, ast.BinOp) and isinstance(e.op, ast.Add):
+                    flat(e.left)
+                    flat(e.right)
+                else:
+                    terms.append(e)
+            v = n.value
+            if isinstance(v, ast.Name):
+                ds = [d for d in reaching(c, f).at_ast(n, v.id) if d.kind == "assign" and d.value is not None]
+                if len(ds) == 1:
+                    v = ds[0].value
+            flat(v)
+            if not (len(terms) >= 2 and any(isinstance(t, ast.Name) and t.id == start for t in terms)):
+                continue
+            others = [t for t in terms if not (isinstance(t, ast.Name) and t.id == start) and not isinstance(t, ast.Constant)]
+            if not others:
+                continue
+            nsinks += 1
+            r.functions += 1
+            for t in others:
+                why = count(f, t, n)
+                r.add(f"{f.short}|{alpha(f, n)[:50]}|{U(t)}", c.where(f, n), f.short, U(n)[:70], "violation" if why else "discharged",
+                      f"`{U(t)}` moves the block cursor but is not a count of source line feeds: {why} - the definition would claim lines "
+                      f"it does not occupy (its map, and the lines skipped, are wrong)" if why else
+                      f"`{U(t)}` is a sum of line-feed counts of the raw source (counters stepped under an LF test / raw .count('\\n') / 0)")
+    if nsinks == 0:
+        r.add("no-sink", "markdown_it/rules_block/reference.py:0", "-", "state.line = start + <count>", "discharged",
+              "no block rule moves the cursor by a computed line count")
+    r.floor = 1
+    return r
